@@ -112,8 +112,8 @@ def merge : Ty → Ty → Ty
         | some a, some b => some (merge a b)
       mergeProps ps mapped0 qs
   | .arr e d, .arr e' d' =>
-    if e.isAny then .arr e d
-    else if e'.isAny then .arr e' d'
+    if e.isAny then .arr e (d || d')
+    else if e'.isAny then .arr e' (d || d')
     else .arr (merge e e') false
   | .obj _ _, _ => .any
   | .arr _ _, _ => .any
